@@ -81,7 +81,8 @@ def mutate(rng, s, kind=None):
             return 'A' * rng.choice([300, 5000])
         i = rng.randrange(n)
         j = min(n, i + rng.choice([1, 2, 8]))
-        return s[:i] + s[i:j] * rng.choice([50, 300, 3000]) + s[j:]
+        # (at most ~8 KB: http.cookies' pattern is quadratic, 24 KB of `=d=d=d...` keeps SimpleCookie.load busy for 10 s)
+        return s[:i] + s[i:j] * rng.choice([50, 300, 1000]) + s[j:]
     if kind == 'badcharset':
         for cs in CHARSETS_OK:
             k = s.find(cs)
@@ -534,7 +535,7 @@ PATHS = {
     'index': ['/', '', '//', '/index', '/index/'],
     'redir': ['/redir', '/redir/x'], 'echo': ['/echo', '/echo/x'], 'tsx': ['/tsx', '/tsx/', '/tsx/x/', '/tsx/x/y//'],
     'limit': ['/limit'], 'lcache': ['/lcache', '/lcache/a'],
-    'stream': ['/stream'], 'combo': ['/combo', '/combo/x', '/combo'], 'vhost': ['/vhost', '/vhost/', '/vhost/x'],
+    'stream': ['/stream', '/gzstream', '/gzstream'], 'combo': ['/combo', '/combo/x', '/combo'], 'vhost': ['/vhost', '/vhost/', '/vhost/x'],
     'psub': ['/psub', '/psub/', '/osub'],
     'szip': ['/szip/hello.txt', '/szip/', '/szip', '/szip/index.html', '/szip/missing'],
     'missing': ['/nope', '/\xe9', '/a%00b', '/plain.txt', '/favicon.ico', '/robots.txt', '/_private', '/index/x/y',
@@ -974,7 +975,7 @@ def cache_cases(rng, n=250):
 REFLECTORS = [('/sub', 'tslash'), ('/psub', 'tslash-proxy'), ('/osub', 'tslash-origin'), ('/tsx/x/', 'tslash-extra'),
               ('/redir', 'redirect'), ('/echo', 'echo'), ('/static', 'staticdir'), ('/combo', 'combo'),
               ('/vhost', 'vhost'), ('/sess', 'sess'), ('/proxy', 'proxy'), ('', 'root'), ('/rest', 'rest'),
-              ('/stream', 'stream'), ('/neg', 'neg'), ('/cache/r', 'cache'), ('/json', 'json'), ('/etag', 'etag')]
+              ('/stream', 'stream'), ('/gzstream', 'gzstream'), ('/neg', 'neg'), ('/cache/r', 'cache'), ('/json', 'json'), ('/etag', 'etag')]
 
 
 REFLECT_SOURCES = ['qs-value', 'qs-key', 'qs-bare', 'path', 'host-b', 'host-q', 'host-raw', 'xfh', 'xfh-raw', 'origin',
@@ -1046,12 +1047,12 @@ CONSUMED = {
     'Range': (['/file', '/static/hello.txt', '/cache/e'], ['bytes=0-5', 'bytes=-3', 'bytes=2-']),
     'If-Range': (['/file'], ['"x"', 'Sun, 06 Nov 1994 08:49:37 GMT']),
     'If-Match': (['/etag', '/combo'], ['"x"', '*']),
-    'If-None-Match': (['/etag', '/static/hello.txt', '/combo'], ['"x"', '*']),
+    'If-None-Match': (['/etag', '/static/hello.txt', '/combo', '/gzstream'], ['"x"', '*']),
     'If-Modified-Since': (['/file', '/static/hello.txt'], ['Sun, 06 Nov 1994 08:49:37 GMT']),
     'If-Unmodified-Since': (['/file'], ['Sun, 06 Nov 1994 08:49:37 GMT']),
     'Accept': (['/acc', '/neg', '/combo'], ['text/html;q=0.5', 'text/*', '*/*;q=0.1']),
     'Accept-Charset': (['/neg', '/combo'], ['utf-8;q=0.5', 'iso-8859-1', '*;q=0.1']),
-    'Accept-Encoding': (['/gz', '/neg', '/combo', '/static/hello.txt'], ['gzip;q=0.5', 'identity;q=0', '*']),
+    'Accept-Encoding': (['/gz', '/neg', '/combo', '/static/hello.txt', '/gzstream'], ['gzip;q=0.5', 'identity;q=0', '*']),
     'Accept-Language': (['/autovary', '/combo'], ['en;q=0.5']),
     'Cookie': (['/sess', '/fsess', '/combo', '/echo'], ['session_id=abc', 'a=b; c=d']),
     'Host': (['/sub', '/psub', '/vhost', '/proxy', '/plain'], ['localhost:8080', 'one.example']),
